@@ -1,0 +1,46 @@
+//go:build verif
+
+package parser
+
+import (
+	"github.com/markusmobius/go-domdistiller/internal/pagination/info"
+	"github.com/markusmobius/go-domdistiller/vtrace"
+)
+
+// The helpers below describe the detector's state for the verification trace.
+// They only read.
+
+func verifPages(list []*info.PageInfo) []interface{} {
+	out := make([]interface{}, 0, len(list))
+	for _, p := range list {
+		out = append(out, map[string]interface{}{"n": p.PageNumber, "url": p.URL})
+	}
+	return out
+}
+
+func verifParam(pi *info.PageParamInfo) map[string]interface{} {
+	if pi == nil {
+		return map[string]interface{}{"some": false}
+	}
+	rec := map[string]interface{}{"some": true, "pattern": pi.PagePattern, "pages": verifPages(pi.AllPageInfo),
+		"next": pi.NextPagingURL, "formula": pi.Formula != nil, "c": 0, "d": 0}
+	if pi.Formula != nil {
+		rec["c"], rec["d"] = pi.Formula.Coefficient, pi.Formula.Delta
+	}
+	return rec
+}
+
+// verifGroup: a group of monotonic numbers as it is handed to the detector.
+func verifGroup(group *info.PageInfoGroup) {
+	vtrace.Emit("PNGroup", "sign", group.DeltaSign, "list", verifPages(group.List))
+}
+
+// verifCand: one candidate pattern after its evaluation (nil: skipped or rejected).
+func verifCand(strPattern string, pi *info.PageParamInfo) {
+	vtrace.Emit("PNCand", "pattern", strPattern, "result", verifParam(pi))
+}
+
+// verifBest: what DetectParamInfo returns.
+func verifBest(pi *info.PageParamInfo, multi bool) {
+	vtrace.Emit("PNBest", "result", verifParam(pi), "multi", multi)
+}
